@@ -60,8 +60,14 @@ def compile_liquid_rules(
     # with no name) does not get treated as a literal.
     #
     # The `#` in the `name` group is specifically for the inline comment tag.
+    #
+    # A name character never starts the closing delimiter: with a custom
+    # `tag_end_string` that begins with a word character or `#` (say `x%`), the
+    # greedy name would otherwise swallow it in `{%endifx%` and the tag would run
+    # on to a later closing delimiter.
     tag_pattern = (
-        rf"{tag_s}-?(?P<pre>\s*(?P<name>#|\w*)\s*)(?P<expr>.*?)\s*(?P<rst>-?){tag_e}"
+        rf"{tag_s}-?(?P<pre>\s*(?P<name>(?!{tag_e})#|(?:(?!{tag_e})\w)*)\s*)"
+        rf"(?P<expr>.*?)\s*(?P<rst>-?){tag_e}"
     )
 
     if not comment_start_string:
